@@ -84,6 +84,15 @@ func specialScenarios() []specialScenario {
 	name23, name30 := "cheese/gouda/aged/slice", "a/rather/long/name/of/30/chars"
 	add("names-lengths-around-the-columns", true, bookPlus(absRecipe{name30, []absIng{{"an element of 22 chars", 2}, {"cal", 1}}}),
 		logPlus([]absIng{{name23, 1}, {name30, 2}}, []absIng{{name23 + "/and/then/some/more", 1}, {"exactly/twenty/chars", 1}, {"exactly/27/characters/long!", 1}}))
+	// the same with letters of two bytes: names that fit a column in characters and not in bytes (12, 17, 20 letters), and
+	// names one letter beyond each column (21, 28)
+	{
+		cyr := func(n int) string {
+			return string([]rune("въглехидрати/кисело/мляко/чаша/и/още/нещо")[:n])
+		}
+		add("names-two-byte-letters-around-the-columns", true, bookPlus(absRecipe{cyr(17), []absIng{{cyr(12), 2}, {"е" + cyr(19), 1}, {"cal", 1}}}),
+			logPlus([]absIng{{cyr(17), 1}, {cyr(20), 2}, {cyr(27), 1}}, []absIng{{cyr(21), 1}, {cyr(28), 2}, {cyr(12), 1}, {"backslash\\in\\a name\\t", 1}}))
+	}
 	// long names that shorten to the same text, or whose shortened forms sort otherwise than the names themselves
 	add("names-that-collide-or-swap-when-shortened", true, bookPlus(absRecipe{"salad/mixed", []absIng{{"vegetables/lettuce/romaine/100g", 1}, {"vegetables/tomato/cherry/100g", 2}, {"cal", 1}}}),
 		logPlus([]absIng{{"soup/chicken/large/bowl/300g", 1}, {"soup/chicken/small/bowl/300g", 2}, {"salad/mixed", 1}}, []absIng{{"soup/chicken/small/bowl/300g", 1}, {"soup/chicken/large/bowl/300g", -1}, {"salad/mixed", 2}}))
